@@ -3,6 +3,7 @@ import Stgutg.Model.Milenage
 import Stgutg.Spec.Ts35206
 import Stgutg.Spec.MilenageUsim
 import Stgutg.Crypto.Prims
+import Stgutg.Crypto.MilenageKat
 namespace Driver
 open Stgutg
 open Stgutg.Model.Milenage
